@@ -1,8 +1,9 @@
 """C02 — find_extrema vs Model/Extrema.v (reference sign bits from neurodsp; stubbed exhaustive stream)."""
 import itertools
+import random
 import numpy as np
 from harness import coqio, gen, ref
-from harness.core import exc_kind
+from harness.core import exc_kind, canon_hash
 
 PROP = 'C02'
 PROPS_FILE = 'Props/C02.v'
@@ -17,7 +18,11 @@ RULE = ('(a) generated signals (11 kinds, 8 sampling rates) x first_extrema in {
         '(thorough) x raw signals over {0,1,2} with ties x boundary in {0,1,2,3}; (c) the same stub with pad=True (pad width '
         '1-3 from a one- or three-tap filter length, raw signals over {0,1,2} or {-1,0,1}, so that extrema tie with the padding '
         'zeros) x boundary in {0,1,2}; (d) stubbed random sign patterns of length 9-16 with short runs x boundary in {0..3}, '
-        'padded and un-padded. non-trivial = at least 2 peaks and 2 troughs reported')
+        'padded and un-padded. In (a) and the short-filter stream ~15 % of the cases (kind +len) have fs, band and filter '
+        'length re-chosen from a table derived by search so that fs * n_cycles / f_lo (n_cycles given or the default 3) or '
+        'fs * n_seconds is exactly an odd / even integer number of samples or one ulp beside one, mostly where the '
+        'mathematically equivalent binary64 computations of that length disagree after the ceil (60 % of them with broadband noise added, +rough); all other '
+        'cases are unchanged. non-trivial = at least 2 peaks and 2 troughs reported')
 EXHAUSTIVE = {'quick': False, 'thorough': False}
 ASSUMPTIONS = ['signals are finite (no NaN/inf)', 'reference filter output has no NaN',
                'inputs with no rising or no decaying crossing (fewer than one oscillation) are outside the property and skipped',
@@ -47,6 +52,7 @@ def cases(rng, tier):
                     'first': rng.choice(['peak', 'peak', 'trough', 'trough', None, None, 'bogus'] if rng.random() < 0.15
                                         else ['peak', 'trough', None]),
                     'filter_kwargs': fk, 'pad': rng.random() < 0.8, 'negate': rng.random() < 0.3})
+        exact_length(out[-1], s['period'])
     # filters shorter than one band period, padded: the outermost half-waves are closed only by the padding zeros
     for _ in range(60 if tier == 'quick' else 600):
         s = gen.signal(rng, kind=rng.choice(['sine', 'asym', 'quant', 'dc', 'sum']), max_len=400)
@@ -54,6 +60,7 @@ def cases(rng, tier):
                     'boundary': rng.choice([0, 0, 1]), 'first': rng.choice(['peak', 'trough', None]),
                     'filter_kwargs': {'n_seconds': round(rng.choice([0.3, 0.4, 0.5, 0.6]) * s['period'] / s['fs'] / 0.7, 6)},
                     'pad': True, 'negate': rng.random() < 0.5})
+        exact_length(out[-1], s['period'], short=True)
     L = 8 if tier == 'quick' else 10
     per = 6 if tier == 'quick' else 10
     for ln in range(2, L + 1):
@@ -79,6 +86,43 @@ def cases(rng, tier):
         ok = [g for g in cfgs if ln - 2 * g[3] >= 4]
         out.append(_stub_case(rng, bits, rng.choice(ok) if ok and rng.random() < 0.5 else None, [0, 1, 2, 3]))
     return out
+
+
+EXACT_SHARE = 0.15
+
+
+def exact_length(c, period, short=False):
+    """For EXACT_SHARE of the signal cases (drawn from a generator seeded with the case content: the main stream is not
+    shifted, all other cases stay as they were) fs, the band and the filter length are replaced by a combination from
+    gen.exact_cycle_table / gen.exact_seconds_pick: fs * n_cycles / f_lo (n_cycles given, or the default 3) or
+    fs * n_seconds is exactly an odd / even integer or one ulp beside one, and (80 %) the mathematically equivalent ways
+    of computing that length in binary64 disagree after the ceil.  Band (f_lo, 2 f_lo), rhythm inside.  short: the
+    shortfilter stream (n_seconds of 0.3-0.6 periods of the low cut-off).  60 % of these cases get broadband noise of 0.3 / 0.6 / 1 standard deviations added (gen.roughen, +rough).  Kind
+    tagged +len, choice recorded in `exact`."""
+    r = random.Random(canon_hash(c) + '/exactlen')
+    if r.random() >= EXACT_SHARE:
+        return
+    nsamp = len(c['sig'])
+    how = 'seconds' if short else r.choice(['default', 'cycles', 'cycles', 'seconds', 'seconds'])
+    e = gen.exact_cycles_pick(r, period, nsamp, n=None if how == 'cycles' else 3)
+    if e is None:
+        return
+    x = {'how': how, 'n': e['n'], 'L': e['L'], 'rel': e['rel'], 'disc_taps': e['disc_taps']}
+    fk = None
+    if how == 'cycles':
+        fk = {'n_cycles': e['n']}
+    elif how == 'seconds':
+        sec = gen.exact_seconds_pick(r, e['fs'], e['f_lo'], nsamp, *((0.25, 0.7) if short else (0.4, 4.0)))
+        if sec is None:
+            x['how'] = 'default'
+        else:
+            fk = {'n_seconds': sec['n_seconds']}
+            x.update(L=sec['L'], rel=sec['rel'], disc_taps=sec['disc_taps'])
+    c.update(fs=e['fs'], f_range=[e['f_lo'], round(2 * e['f_lo'], 6)], filter_kwargs=fk, kind=c['kind'] + '+len', exact=x)
+    if r.random() < 0.6:
+        # broadband noise on top (a kernel two taps longer moves no crossing of a clean rhythm)
+        x['rough'] = r.choice([0.3, 0.6, 1.0])
+        c.update(sig=gen.hexlist(gen.roughen(r.randrange(1 << 30), gen.unhexlist(c['sig']), x['rough'])), kind=c['kind'] + '+rough')
 
 
 def _pad_cfgs():
